@@ -171,6 +171,23 @@ DoReadBack ==
 
 P_ReadBack == up' /\ stored' = stored /\ obs'.k = "ok" /\ obs'.same /\ obs'.got = stored
 
+(* Internal RPC subjects (metadata propagation, server info, partition      *)
+(* status, partition notification, replication request, leader-epoch        *)
+(* offset request): their NATS handlers decode the bytes with the           *)
+(* Unmarshal* of their type and then read fields of the decoded request.    *)
+(* Whatever arrives - malformed envelopes of the table above or well-formed *)
+(* requests with missing sub-messages / unexpected ids (`shape`) - the      *)
+(* server stays up and the stream's log is untouched.                       *)
+InternalHandlers == {"propagate", "serverinfo", "partstatus", "notify", "replreq", "leaderoffset"}
+
+DoInternal(h, i, pbOK, shape) ==
+  /\ up
+  /\ up' = (Unmarshal("pb", i, pbOK).k # "Crash")
+  /\ stored' = stored
+  /\ obs' = [a |-> "Internal", k |-> "sent", same |-> TRUE]
+
+P_Internal == up' /\ stored' = stored
+
 P_Same == UNCHANGED <<up, stored>>
 
 \* state invariant of the running server
